@@ -16,6 +16,8 @@ def run(rep, tier, seed):
         cfgs += [dict(system="c-inference", N=2, M=2, shapes=sh) for sh in ops.const_shape_configs() + ops.struct_shape_configs()[:3]]
     run_cfgs(rep, cfgs)
     need_both_answers(rep)
+    from ._common import lookalike_history
+    lookalike_history(rep, 'c-inference', 'rc2')
     drive.stub_validation(rep, systems=["c-inference"], limit=12 if tier == "quick" else 40)
     rep.assumptions.append("answer True is checked against ALL non-negative integer impact vectors (unbounded integers); answer False by exhibiting, for every base on the path, a c-representation rejecting the query (CEGIS over witness vectors)")
     rep.assumptions.append("the CSP of a path is concrete and is solved by the genuine z3 (QF_LIA)")
